@@ -661,95 +661,101 @@ func (tx *Tx) findRangeOnDisk(fID, rootOff int64, start, end, newStart, newEnd [
 }
 
 func (tx *Tx) prefixScanByHintBPTSparseIdx(bucket string, prefix []byte, offsetNum int, limitNum int) (es Entries, off int, err error) {
+	// offset and limit apply to the live keys of the whole bucket: gather the
+	// candidates of the active segment and of every sealed segment, drop the
+	// superseded, deleted and expired ones, then page
 	newPrefix := getNewKey(bucket, prefix)
-	records, voff, err := tx.db.ActiveBPTreeIdx.PrefixScan(newPrefix, offsetNum, limitNum)
+	records, _, err := tx.db.ActiveBPTreeIdx.PrefixScan(newPrefix, 0, ScanNoLimit)
 	if err == nil && records != nil {
 		for _, r := range records {
 			path := tx.db.getDataPath(r.H.fileID)
 			df, err := NewDataFile(path, tx.db.opt.SegmentSize, tx.db.opt.RWMode)
 			if err != nil {
-				df.rwManager.Close()
 				return nil, off, err
 			}
-			if item, err := df.ReadAt(int(r.H.dataPos)); err == nil {
-				es = append(es, item)
-				if len(es) == limitNum {
-					off = voff
-					return es, off, nil
-				}
-			} else {
-				df.rwManager.Close()
+			item, err := df.ReadAt(int(r.H.dataPos))
+			df.rwManager.Close()
+			if err != nil {
 				return nil, off, fmt.Errorf("HintIdx r.Hi.dataPos %d, err %s", r.H.dataPos, err)
 			}
-			df.rwManager.Close()
+			es = append(es, item)
 		}
 	}
 
-	leftNum := limitNum - len(es)
-	if limitNum == ScanNoLimit {
-		// no limit: the sealed segments are always consulted
-		leftNum = ScanNoLimit
+	entries, _, err := tx.prefixScanOnDisk(bucket, prefix, 0, ScanNoLimit)
+	if err != nil {
+		return nil, off, err
 	}
-	if leftNum > 0 || limitNum == ScanNoLimit {
-		entries, voff, err := tx.prefixScanOnDisk(bucket, prefix, offsetNum, leftNum)
-		if err != nil {
-			return nil, off, err
-		}
-		es = append(es, entries...)
-		off = voff
-	}
+	es = append(es, entries...)
 
-	off = voff
+	es = processEntriesScanOnDisk(es)
+
+	off = offsetNum
+	if off > len(es) {
+		off = len(es)
+	}
+	if off < 0 {
+		off = 0
+	}
+	es = es[off:]
+	if limitNum > 0 && len(es) > limitNum {
+		es = es[:limitNum]
+	}
 
 	if len(es) == 0 {
 		return nil, off, ErrPrefixScan
 	}
 
-	return processEntriesScanOnDisk(es), off, nil
+	return es, off, nil
 }
 
 func (tx *Tx) prefixSearchScanByHintBPTSparseIdx(bucket string, prefix []byte, reg string, offsetNum int, limitNum int) (es Entries, off int, err error) {
+	// offset and limit apply to the live keys of the whole bucket: gather the
+	// candidates of the active segment and of every sealed segment, drop the
+	// superseded, deleted and expired ones, then page
 	newPrefix := getNewKey(bucket, prefix)
-	records, voff, err := tx.db.ActiveBPTreeIdx.PrefixSearchScan(newPrefix, reg, offsetNum, limitNum)
+	records, _, err := tx.db.ActiveBPTreeIdx.PrefixSearchScan(newPrefix, reg, 0, ScanNoLimit)
 	if err == nil && records != nil {
 		for _, r := range records {
 			path := tx.db.getDataPath(r.H.fileID)
 			df, err := NewDataFile(path, tx.db.opt.SegmentSize, tx.db.opt.RWMode)
 			if err != nil {
-				df.rwManager.Close()
 				return nil, off, err
 			}
-			if item, err := df.ReadAt(int(r.H.dataPos)); err == nil {
-				es = append(es, item)
-				if len(es) == limitNum {
-					off = voff
-					return es, off, nil
-				}
-			} else {
-				df.rwManager.Close()
+			item, err := df.ReadAt(int(r.H.dataPos))
+			df.rwManager.Close()
+			if err != nil {
 				return nil, off, fmt.Errorf("HintIdx r.Hi.dataPos %d, err %s", r.H.dataPos, err)
 			}
-			df.rwManager.Close()
+			es = append(es, item)
 		}
 	}
 
-	leftNum := limitNum - len(es)
-	if leftNum > 0 {
-		entries, voff, err := tx.prefixSearchScanOnDisk(bucket, prefix, reg, offsetNum, leftNum)
-		if err != nil {
-			return nil, off, err
-		}
-		es = append(es, entries...)
-		off = voff
+	entries, _, err := tx.prefixSearchScanOnDisk(bucket, prefix, reg, 0, ScanNoLimit)
+	if err != nil {
+		return nil, off, err
 	}
+	es = append(es, entries...)
 
-	off = voff
+	es = processEntriesScanOnDisk(es)
+
+	off = offsetNum
+	if off > len(es) {
+		off = len(es)
+	}
+	if off < 0 {
+		off = 0
+	}
+	es = es[off:]
+	if limitNum > 0 && len(es) > limitNum {
+		es = es[:limitNum]
+	}
 
 	if len(es) == 0 {
 		return nil, off, ErrPrefixSearchScan
 	}
 
-	return processEntriesScanOnDisk(es), off, nil
+	return es, off, nil
 }
 
 // PrefixScan iterates over a key prefix at given bucket, prefix and limitNum.
